@@ -23,6 +23,7 @@ For each change k in {1,2} write these files (create the directory /tmp/wt_$ID/_
   /tmp/wt_$ID/_out/k/patch.diff   - output of 'git diff' for the change (must apply with 'git apply' to a clean checkout)
   /tmp/wt_$ID/_out/k/demo.py      - a small standalone program: exits 0 (prints PASS) when the property holds on what it exercises, exits 1 (prints FAIL and what differed) when it is violated. It must exit 0 on the unmodified code and exit 1 with the patch applied. Run as: cd <worktree> && /venv/bin/python _out/k/demo.py
   /tmp/wt_$ID/_out/k/notes.md     - 5-10 lines: what was changed, why it breaks the property, what exactly it needs in order to manifest, and the exact commands you ran with their results (suite result with the change: N passed / 0 failed; demo without / with the change).
+IMPORTANT: never use 'git stash' (the stash is shared between all worktrees of this repository and other jobs run concurrently): toggle your change with 'git diff > file', 'git apply file', 'git apply -R file' or 'git checkout -- linear_operator' only.
 When finished, restore the worktree sources to the unmodified state (git checkout -- linear_operator) leaving only the _out directory. Do not commit anything.
 Final answer: a short summary of the two changes (files/functions touched, trigger condition), and confirmation of the verification steps you performed.
 TXT
